@@ -21,6 +21,12 @@ Definition nearest (r num den : Z) : Prop := 2 * r * den <= 2 * num + den /\ 2 *
 Lemma nearestb_spec r num den : nearestb r num den = true -> nearest r num den.
 Proof. unfold nearestb, nearest. intros H. apply andb_prop in H. destruct H as [A B]. apply Z.leb_le in A, B. split; assumption. Qed.
 
+(* nearest up to a slack of s / (2 den) of a unit *)
+Definition nearest_slackb (r num den s : Z) : bool := (2 * r * den <=? 2 * num + den + s) && (2 * num <=? 2 * r * den + den + s).
+Definition nearest_slack (r num den s : Z) : Prop := 2 * r * den <= 2 * num + den + s /\ 2 * num <= 2 * r * den + den + s.
+Lemma nearest_slackb_spec r num den s : nearest_slackb r num den s = true -> nearest_slack r num den s.
+Proof. unfold nearest_slackb, nearest_slack. intros H. apply andb_prop in H. destruct H as [A B]. apply Z.leb_le in A, B. split; assumption. Qed.
+
 (* r is a nearest integer to clamp01(M * 2^E) * scale *)
 Definition near_dy (r M E scale : Z) : bool :=
   if M <=? 0 then r =? 0 else
